@@ -275,14 +275,28 @@ class Sym:
     floor = __floor__
     ceil = __ceil__
 
+    def _concretise_int(self):
+        """int(x): fork over the integer values inside the range the harness declared (ctx.int_range)"""
+        c = cur()
+        rng = getattr(c, "int_range", None)
+        if rng is None:
+            raise Inconclusive("int() of a symbolic value (no int_range declared by the harness)")
+        lo, hi = rng
+        t = self.t
+        tr = z3.If(t >= 0, z3.ToInt(t), -z3.ToInt(-t))
+        for k in range(lo, hi + 1):
+            if c.decide(tr == k, tag="int()"):
+                return k
+        raise Inconclusive("int() of a symbolic value outside the declared range %r" % (rng,))
+
     def __trunc__(self):
-        raise Inconclusive("int() of a symbolic value")
+        return self._concretise_int()
 
     def __float__(self):
         raise TypeError("symbolic value realised to float")
 
     def __int__(self):
-        raise TypeError("symbolic value realised to int")
+        return self._concretise_int()
 
     def __index__(self):
         raise TypeError("symbolic value used as index")
